@@ -205,10 +205,19 @@ def numba_newton_raphson(
             bounds_to_check = (root_bounds[0], root_bounds[1])
 
         if next_iterate < bounds_to_check[0]:
-            next_iterate = (bounds_to_check[0] - iterates[2]) * 0.5 + iterates[2]
+            if root_bounded and iterates[2] == bounds_to_check[0]:
+                # The iterate is itself the end of the bracket it wants to leave: halving
+                # the distance to that end is a zero step, which would pass the step-size
+                # convergence test below at a point that is not a root. Bisect instead.
+                next_iterate = 0.5 * (bounds_to_check[0] + bounds_to_check[1])
+            else:
+                next_iterate = (bounds_to_check[0] - iterates[2]) * 0.5 + iterates[2]
 
         if next_iterate > bounds_to_check[1]:
-            next_iterate = (bounds_to_check[1] - iterates[2]) * 0.5 + iterates[2]
+            if root_bounded and iterates[2] == bounds_to_check[1]:
+                next_iterate = 0.5 * (bounds_to_check[0] + bounds_to_check[1])
+            else:
+                next_iterate = (bounds_to_check[1] - iterates[2]) * 0.5 + iterates[2]
 
         # Roll the iterates, make the last entry the latest estimate
         iterates.append(iterates.pop(0))
